@@ -576,9 +576,9 @@ theorem dnssl_opt_encodable (maxI : Dur) (d : RawDNSSL) (hdoc : docDNSSL maxI d 
   | some l =>
     rw [hl] at hdoc
     simp only [Bool.and_eq_true] at hdoc
-    obtain ⟨⟨hlp, hne⟩, _⟩ := hdoc
+    obtain ⟨⟨⟨hlp, hne⟩, hne0⟩, _⟩ := hdoc
     simp only [Option.getD_some, encodable, Bool.and_eq_true]
-    exact ⟨hne, fits_sec32 l (inNonneg_bounds l hlp).1 (inNonneg_bounds l hlp).2⟩
+    exact ⟨⟨hne, hne0⟩, fits_sec32 l (inNonneg_bounds l hlp).1 (inNonneg_bounds l hlp).2⟩
 
 theorem mtu_opt_encodable (m : Int) (h0 : 0 ≤ m) (h1 : m ≤ 65536) : encodable (Opt.mtu m) = true := by
   simp only [encodable, Bool.and_eq_true, decide_eq_true_eq]
